@@ -29,6 +29,10 @@ inputs:
     required: true
   «aopt»:
     default: x
+  «args»:
+    required: true
+  «entrypoint»:
+    required: true
 outputs:
   «aout»:
     description: o
@@ -116,6 +120,8 @@ jobs:
         with:
           «ain»: x
           «aopt»: y
+          «args»: a
+          «entrypoint»: e
       - id: «s2»
         uses: actions/checkout@v4
         with:
